@@ -505,3 +505,47 @@ Proof.
     cbn [flat_map filter]. destruct x; cbn [SpecTextLines.nonempty]; [exact IH|]. cbn [flat_map app]. rewrite IH. reflexivity. }
   rewrite E. apply node_lines_text_break. exact H.
 Qed.
+
+(* ---- the entity table is looked up by exact (case-sensitive) name ------------------------------------------- *)
+Fixpoint keys_distinct (l : list (str * Z)) : bool :=
+  match l with
+  | [] => true
+  | (k, _) :: t => negb (existsb (fun kv => str_eqb k (fst kv)) t) && keys_distinct t
+  end.
+
+Lemma table_keys_distinct : keys_distinct sami_name2codepoint = true.
+Proof. vm_compute. reflexivity. Qed.
+
+Lemma str_eqb_refl' : forall s, str_eqb s s = true.
+Proof. induction s as [|c s IH]; [reflexivity|]. cbn [str_eqb]. rewrite Z.eqb_refl, IH. reflexivity. Qed.
+
+Lemma assoc_str_exact_gen : forall l n v, keys_distinct l = true ->
+  (assoc_str n l = Some v <-> In (n, v) l).
+Proof.
+  induction l as [|[k w] l IH]; intros n v H.
+  - split; [discriminate|intros []].
+  - cbn [keys_distinct] in H. apply andb_true_iff in H. destruct H as [Hk Hl]. apply negb_true_iff in Hk.
+    cbn [assoc_str]. destruct (str_eqb n k) eqn:E.
+    + apply str_eqb_eq' in E. subst k. split.
+      * intros Q. injection Q as <-. left. reflexivity.
+      * intros [Q|Q]; [injection Q as <-; reflexivity|]. exfalso.
+        assert (existsb (fun kv => str_eqb n (fst kv)) l = true).
+        { apply existsb_exists. exists (n, v). split; [exact Q|apply str_eqb_refl']. }
+        congruence.
+    + rewrite (IH n v Hl). split; [intros Q; right; exact Q|].
+      intros [Q|Q]; [|exact Q]. injection Q as -> ->. rewrite str_eqb_refl' in E. discriminate.
+Qed.
+
+(* a reference &name; denotes v exactly when the pair (name, v) is in the table: names differing only by the
+   case of a letter (Eacute / eacute, Prime / prime, Dagger / dagger ...) are different entries *)
+Theorem sami_entity_lookup_exact : forall n v, assoc_str n sami_name2codepoint = Some v <-> In (n, v) sami_name2codepoint.
+Proof. intros n v. apply assoc_str_exact_gen. exact table_keys_distinct. Qed.
+
+Example sami_entity_case :
+  ev_chars (EvEntity (lit "Eacute")) = Some [201] /\ ev_chars (EvEntity (lit "eacute")) = Some [233] /\
+  ev_chars (EvEntity (lit "Prime")) = Some [8243] /\ ev_chars (EvEntity (lit "prime")) = Some [8242].
+Proof. repeat split; vm_compute; reflexivity. Qed.
+
+(* the entry pycaption adds to the table itself *)
+Lemma sami_entity_apos : assoc_str (lit "apos") sami_name2codepoint = Some 39 /\ ev_chars (EvEntity (lit "apos")) = Some [39].
+Proof. split; vm_compute; reflexivity. Qed.
